@@ -346,8 +346,8 @@ func tokenizeForSemantics(content string) []semanticToken {
 			}
 		} else if afterPipe {
 			afterPipe = false
-			if tok.Type != parser.TokenText && tok.Type != parser.TokenComment && tok.Type != parser.TokenNewline {
-				tok = lexer.RescanAsText(tok.Pos)
+			if tok.Type != parser.TokenComment && tok.Type != parser.TokenNewline {
+				tok = lexer.RescanAsNote(tok.Pos) // the note runs to the comment or the line end, "|" included
 			}
 		} else if tok.Type == parser.TokenPipe {
 			afterPipe = true
